@@ -41,7 +41,23 @@ func (e *Env) mac6(seg uint16, ts uint32, exp uint8, in, eg uint16) [6]byte {
 func (e *Env) badMAC(r *rand.Rand, seg uint16, ts uint32, exp uint8, in, eg uint16) [6]byte {
 	for {
 		var m [6]byte
-		switch r.Intn(7) {
+		f := r.Intn(7)
+		if (in != 0 || eg != 0) && r.Intn(3) == 0 {
+			f = 7 + r.Intn(2) // valid for the hop field with one of its interface fields left out (zero)
+		}
+		switch f {
+		case 7:
+			if in != 0 {
+				m = e.mac6(seg, ts, exp, 0, eg)
+			} else {
+				m = e.mac6(seg, ts, exp, in, 0)
+			}
+		case 8:
+			if eg != 0 {
+				m = e.mac6(seg, ts, exp, in, 0)
+			} else {
+				m = e.mac6(seg, ts, exp, 0, eg)
+			}
 		case 0:
 			other := FullHopMAC([]byte("key-of-another-as"[:16]), seg, ts, exp, in, eg)
 			copy(m[:], other[:6])
@@ -179,7 +195,16 @@ func (e *Env) Build(a *APkt, o BuildOpts, now time.Time) ([]byte, error) {
 	r := o.Rng
 	s := &slayers.SCION{Version: 0, TrafficClass: uint8(r.Intn(256)), FlowID: uint32(1 + r.Intn(0xfffff)),
 		SrcIA: e.IA(a.Src), DstIA: e.IA(a.Dst)}
-	if err := s.SetDstAddr(addr.HostIP(hostFor(a.Dst, true))); err != nil {
+	// destination host: mostly IPv4, sometimes IPv6, for foreign destinations also a service address
+	// (source and destination address types differ in a good part of the packets)
+	dstHost := addr.HostIP(hostFor(a.Dst, true))
+	switch x := r.Intn(8); {
+	case x == 0:
+		dstHost = addr.HostIP(netip.MustParseAddr("2001:db8:" + map[bool]string{true: "a", false: "f"}[a.Dst == "L"] + "::99:1"))
+	case x == 1 && a.Dst != "L":
+		dstHost = addr.HostSVC(addr.SvcCS)
+	}
+	if err := s.SetDstAddr(dstHost); err != nil {
 		return nil, err
 	}
 	if a.Fault == "srchost" {
@@ -233,13 +258,20 @@ func (e *Env) Build(a *APkt, o BuildOpts, now time.Time) ([]byte, error) {
 		s.Path = op
 	} else {
 		d := &scion.Decoded{}
+		segDelta := []int64{0, 3, -16, 59, -61}[r.Intn(5)]
 		d.PathMeta.CurrINF, d.PathMeta.CurrHF = uint8(a.Inf), uint8(a.Hf)
 		d.NumINF = len(a.Seg)
 		k := 0
 		for i, n := range a.Seg {
 			d.PathMeta.SegLen[i] = uint8(n)
 			d.NumHops += n
+			// Later segments are 7 s older, or differ from the first one by the amounts that would make one
+			// of the stale EPIC sender times (4 s / 60 s old, 15 s / 60 s ahead) look 1 s old if it were
+			// judged against this segment's timestamp instead of the first one's.
 			ts := base - uint32(7*i)
+			if i > 0 && segDelta != 0 {
+				ts = uint32(int64(base) + segDelta)
+			}
 			// A segment with hop fields that are to be expired: half of the time (once the router has
 			// been running for 3 s) they expired only AFTER the router handled its first packet
 			// (0.5 .. 1.5 s after e.T0, i.e. at least 1.5 s ago; a stall can only make them older),
@@ -253,6 +285,16 @@ func (e *Env) Build(a *APkt, o BuildOpts, now time.Time) ([]byte, error) {
 			if recent {
 				ts = uint32(e.T0.Unix() + 1 - 337) // lifetime of ExpTime 0 is 337.5 s
 			}
+			// ... or (a third of the rest) a long lifetime (ExpTime 200: 18 h 50 min) that ended 3 s or 20 s
+			// ago; the live hop fields of such a segment get the full 24 h. A stall can only age them.
+			long := false
+			for j := 0; j < n; j++ {
+				long = long || a.Hops[k+j].Exp
+			}
+			long = long && !recent && r.Intn(3) == 0 && !(a.Kind == "epic" && i == 0)
+			if long {
+				ts = uint32(now.Unix() - int64([]int{3, 20}[r.Intn(2)]) - 67838) // 201 * 337.5 s = 67837.5 s
+			}
 			hops := make([]path.HopField, n)
 			for j := range hops {
 				w := a.Hops[k+j]
@@ -260,6 +302,12 @@ func (e *Env) Build(a *APkt, o BuildOpts, now time.Time) ([]byte, error) {
 					IngressRouterAlert: w.Ia, EgressRouterAlert: w.Ea}
 				if w.Exp {
 					hops[j].ExpTime = expiredExp
+				}
+				if long {
+					hops[j].ExpTime = 255
+					if w.Exp {
+						hops[j].ExpTime = 200
+					}
 				}
 			}
 			upd := make([]bool, n)
